@@ -45,8 +45,28 @@ def check(out, ctx):
                     out.violation("c01end:%s:%s:%s" % (c.g.gid, c.rule, c.inp.encode().hex()),
                                   "rule %s on %r consumed %d bytes, PEG semantics determines %d" % (c.rule, c.inp, e, c.spec["end"]),
                                   common.case_payload(c, st))
+    # termination: for grammars whose computed certificate passes WellFormed.wf_check (theorem C01_terminates)
+    # the implementation must return on every input, and so must the model and the specification with the
+    # bound the harness gives them
+    wf_g = [g for g in st["grammars"] if getattr(g, "wf", None) is True]
+    nwf_g = [g for g in st["grammars"] if getattr(g, "wf", None) is False]
+    wf_cases = 0
+    wf_fuel = 0
+    for c in cases:
+        if getattr(c.g, "wf", None) is not True:
+            continue
+        wf_cases += 1
+        if c.impl["k"] in ("TIMEOUT", "CRASH"):
+            out.violation("c01term:%s:%s:%s" % (c.g.gid, c.rule, c.inp.encode().hex()),
+                          "the grammar passes the well-formedness check, the generated parser does not return on %r (%s)" % (c.inp, c.impl["k"]),
+                          common.case_payload(c, st))
+        elif (c.spec or {}).get("k") == "FUEL" or (c.model or {}).get("k") == "FUEL":
+            wf_fuel += 1      # the bound the harness gives the model was too small (the theorem says a bound exists)
     common.stream_coverage(out, st, cases,
                            "generated grammars (families core/memo/leftrec/ws/hooks/include, plus memo-stripped and include-inlined twins) x inputs derived from the grammar (sentences, mutations, random); non-trivial = input non-empty and implementation result is OK or ERR; distinct by (grammar, rule, input)",
                            lambda c: len(c.inp) > 0 and c.impl["k"] in ("OK", "ERR"),
                            {"oracle_checked_against_spec": checked, "consumed_bytes_checked": consumed_checked,
-                            "model_vs_implementation_disagreements": bad, **tinfo})
+                            "model_vs_implementation_disagreements": bad,
+                            "grammars_certified_well_formed": len(wf_g), "grammars_not_certified": len(nwf_g),
+                            "cases_of_certified_grammars_returned": wf_cases, "of_those_beyond_the_harness_bound_in_the_model": wf_fuel,
+                            "not_certified_sample": [g.text[:200] for g in nwf_g[:3]], **tinfo})
